@@ -10,7 +10,7 @@ META = dict(
     engine='Grammar',
     technique='TLA+ spec Grammar: TLC generates token sentences, grammar derivations, nesting descriptors and alias graphs and model-checks alias expansion as a stack machine (bounded stack, agreement with the functional reference and with the static cycle/error reachability, termination); every case is parsed by the real revset, fileset and template parsers in child processes under a per-case timeout (S->I) and TLC judges the observed outcomes',
     text='Inputs: all token sentences of <=3 tokens over a 22-token alphabet (thorough: also all 4-token sentences over its 14 structural tokens) (identifiers, brackets, prefix/postfix/infix operators, @ : . , string literals incl. unterminated, escaped, invalid-escape and raw, unicode identifier/symbol, space, integer) plus pseudo-random 5-token sentences, all derivations of a 14-production token grammar up to 5 (6) tokens, nesting generators (prefix operators, postfix operators, infix chains, argument lists, long string literals to 100 000; parentheses and nested calls to 10 because each level is parsed three times, plus calls at 10 000/100 000 where the first descent ends the run), and alias graphs over the symbol aliases A, x and the function alias F(x) with 14 bodies each (3000 pseudo-random graph x expression pairs quick, 15 000 thorough; the model itself is checked on all 50 625 pairs in thorough). Contract: the outcome is Ok or Err - never a panic, abort or stack overflow - and alias expansion fails exactly when the model expansion does (recursion found on the stack, wrong arity, unparsable definition). TLC proves for the model that expansion terminates with a stack of distinct aliases and fails iff a cycle or a local error is reachable in the alias graph.',
-    note='Crash-freedom on arbitrary byte strings is fuzzing territory and is NOT claimed (DESIGN 5): only model-derived inputs. A timeout (nested calls between 11 and the overflow depth would take 3^n steps) is recorded, not judged. Parsing runs on a thread with an 8 MiB stack in a dev-profile (opt-level 1) build; the overflow depth depends on both. Known finding: stack overflow at nesting depth >= 5000 (known-findings.txt).',
+    note='Crash-freedom on arbitrary byte strings is fuzzing territory and is NOT claimed (DESIGN 5): only model-derived inputs. A timeout on a sentence or a nesting case (nested calls between 11 and the overflow depth would take 3^n steps) is recorded, not judged; a timeout on an alias case (after one retry alone with 6x the limit) is a failure to terminate. Parsing runs on a thread with an 8 MiB stack in a dev-profile (opt-level 1) build; the overflow depth depends on both. Known finding: stack overflow at nesting depth >= 5000 (known-findings.txt).',
     design='4 C36, 5, 7',
 )
 READY = False
@@ -131,4 +131,4 @@ def run(ctx):
     ctx.assumptions += ["each parse runs on a thread with an 8 MiB stack inside a child process; a child death is attributed to the case it was running",
                         "token texts per language: harness/jjconf/src/bin/paths/grammar_text.rs",
                         "for the fileset language (whose public parse also resolves names) an unknown-function error counts as successful alias expansion",
-                        "a timeout (%d ms per case) is recorded, not judged" % tmo]
+                        "a timeout (%d ms per case) on a sentence / nesting case is recorded, not judged" % tmo]
